@@ -326,6 +326,26 @@ func (tree *HTree) movePos(ki *KeyInfo, oldPos, newPos Position) (moved, found b
 	return
 }
 
+// setMeta replaces version and value hash of the item of ki and keeps the position the item has NOW; one step under
+// the tree lock (GC may have relocated the record since the caller looked the item up). If the key has no item, one is
+// created at pos.
+func (tree *HTree) setMeta(ki *KeyInfo, meta *Meta, pos Position) {
+	tree.Lock()
+	defer tree.Unlock()
+
+	var req HTreeReq
+	req.ki = ki
+	tree.getLeaf(ki, &tree.ni)
+	if tree.leafs[tree.ni.offset].Get(&req) {
+		pos = req.item.Pos
+	}
+	req.Meta = *meta
+	req.Position = pos
+	req.item = HTreeItem{ki.KeyHash, pos, meta.Ver, meta.ValueHash}
+	tree.getLeafAndInvalidNodes(ki, &tree.ni)
+	tree.setToLeaf(&tree.ni, &req)
+}
+
 // remove if same offset or oldPos.ChunkID = -1
 func (tree *HTree) remove(ki *KeyInfo, oldPos Position) {
 	tree.Lock()
